@@ -3,8 +3,10 @@ import PorepyVerif.Common.Wire
 import PorepyVerif.C46.Model
 open Lean PV PorepyVerif.C46
 
-/-- state: one `Store` per value row (value_dim rows share the coordinates) -/
-abbrev St := List Store
+/-- state: the `k`-row store of the model (`StoreK`: one `Store` per value row, shared coordinates);
+    every op is answered by the model functions `addK` / `getK` that the theorems
+    `sparseK_refines_dictK`, `addK_ret` speak about -/
+abbrev St := StoreK
 
 def step (st : St) (j : Json) : R (St × Json) := do
   let op ← fStr j "op"
@@ -14,21 +16,18 @@ def step (st : St) (j : Json) : R (St × Json) := do
     pure (List.replicate k [], Json.str "ok")
   | "add" =>
     let coords ← fIntss j "coords"
-    let values ← fRatss j "values"
+    -- value columns: `cols[j]` = the `k` values given for `coords[j]` (`values[:, j]`)
+    let cols ← fRatss j "cols"
     let additive ← fBool j "additive"
-    if values.length != st.length then throw "value_dim mismatch" else
-    if values.any (fun row => row.length != coords.length) then throw "length mismatch" else
-    if coords.isEmpty then pure (st, obj [("ret", ofNats [])]) else
-    let res := (st.zip values).map (fun (s, row) => add s (coords.zip row) additive)
-    let ret := match res with
-      | [] => []
-      | r :: _ => r.2
-    pure (res.map (·.1), obj [("ret", ofNats ret)])
+    if cols.length != coords.length then throw "length mismatch" else
+    if cols.any (fun col => col.length != st.length) then throw "value_dim mismatch" else
+    let r := addK st (coords.zip cols) additive
+    pure (r.1, obj [("ret", ofNats r.2)])
   | "get" =>
     let coords ← fIntss j "coords"
-    let rows := st.map (fun s => get s coords)
-    if rows.any (·.isNone) then pure (st, err "ValueError")
-    else pure (st, obj [("vals", ofList ofRats (rows.map (·.getD [])))])
+    match getK st coords with
+    | none => pure (st, err "ValueError")
+    | some rows => pure (st, obj [("vals", ofList ofRats rows)])
   | "dump" =>
     pure (st, obj [("coords", ofList ofInts ((st.headD []).map (·.1))),
                    ("values", ofList ofRats (st.map (fun s => s.map (·.2))))])
